@@ -1043,8 +1043,10 @@ class Deferred(Awaitable[_SelfResultT]):
             if current.paused:
                 # This Deferred isn't going to produce a result at all.  All the
                 # Deferreds up the chain waiting on it will just have to...
-                # wait.
-                return
+                # wait.  The Deferred which supplied it with its result (if
+                # any) still has to run the rest of its own callbacks.
+                chain.pop()
+                continue
 
             finished = True
             current._chainedTo = None
